@@ -30,3 +30,25 @@ package hap
 //@   pure
 //@ invoke "github.com/brutella/hc/hap.Device.PublicKey"(d) (k)
 //@   pure
+
+// ---- handlers of the pairing endpoints seen through their interfaces
+// pvshared(h): the X25519 shared secret a pair-verify handler currently holds (abstraction of the implementing type)
+//@ ghost pvshared(ref) seq
+
+//@ invoke "github.com/brutella/hc/hap.PairVerifyHandler.Handle"(h, in) (out, err)
+//@   requires in != nil
+//@   modifies heap, pvshared(h)
+//@   ensures answered: err == nil ==> out != nil && ref(out) > 0
+//@   ensures auth: err == nil && len(cval(out, 6)) > 0 && seqat(cval(out, 6), 0) == 4 && len(cval(out, 7)) == 0 ==> authOK(pvshared(h))
+//@ invoke "github.com/brutella/hc/hap.PairVerifyHandler.SharedKey"(h) (k)
+//@   pure
+//@   ensures seq(k) == pvshared(h)
+//@ invoke "github.com/brutella/hc/hap.ContainerHandler.Handle"(h, in) (out, err)
+//@   requires in != nil
+//@   modifies heap, dbver, lastname, lastkey, dbhas, dbkey, srpkey, keyset
+//@   ensures answered: err == nil ==> out != nil && ref(out) > 0
+
+// ---- context (in-memory store shared by all connections), seen through its interface
+//@ invoke "github.com/brutella/hc/hap.Context.GetSecuredDevice"(ctx) (d)
+//@   pure
+//@   ensures d != nil
